@@ -154,7 +154,7 @@ package broker
 //@ spec pred connected(c *Client) = client_ok(c) && c.session != nil && c.ackQueue != nil && c.publishTokens != nil && c.subscribeTokens != nil && c.dequeueTokens != nil
 //
 //@ writers Client.will: (*Client).processConnect, (*Client).processDisconnect
-//@ writers Client.state: NewClient
+//@ writers Client.state: NewClient, (*Client).processConnect, (*Client).processDisconnect
 //@ writers Client.session: (*Client).processConnect
 //@ writers Client.backend: NewClient
 //@ writers Client.conn: NewClient
@@ -209,6 +209,7 @@ package broker
 //@ func (c *Client) processPingreq() (err error)
 //@   requires [client] client_ok(c)
 //@   ensures [pingresp] err == nil ==> nsent[13] == old(nsent[13]) + 1 && nsentall == old(nsentall) + 1
+//@   ensures [no-connack] nsent[2] == old(nsent[2]) && nsentall <= old(nsentall) + 1
 //@   modifies nsent, nsentall, lastid, connack_sp, connack_code, nnodup, npubq, nclose, tdying[c.tomb]
 //
 //@ func (c *Client) processDisconnect() (err error)
@@ -220,12 +221,15 @@ package broker
 //@   requires [client] connected(c)
 //@   ensures [released] err == nil ==> saved[1][id] == 0
 //@   ensures [one-token] old(dtok) - 1 <= dtok && dtok <= old(dtok)
+//@   ensures [incoming] old(incoming_ok()) ==> incoming_ok()
 //@   ensures [others] err == nil ==> forall d int, i int {saved[d][i]} :: d != 1 || i != id ==> saved[d][i] == old(saved[d][i])
 //@   modifies saved, dtok, nclose, tdying[c.tomb]
 //
 //@ func (c *Client) processPubrec(id packet.ID) (err error)
 //@   requires [client] connected(c)
 //@   ensures [pubrel] err == nil ==> saved[1][id] == 6 && nsent[6] == old(nsent[6]) + 1 && lastid[6] == id
+//@   ensures [no-connack] nsent[2] == old(nsent[2]) && nsentall <= old(nsentall) + 1
+//@   ensures [incoming] old(incoming_ok()) ==> incoming_ok()
 //@   modifies saved, nsent, nsentall, lastid, connack_sp, connack_code, nnodup, npubq, nclose, tdying[c.tomb]
 //
 //@ func (c *Client) processPublish(publish *packet.Publish) (err error)
@@ -235,6 +239,7 @@ package broker
 //@   ensures [handed-on] err == nil && publish.Message.QOS <= 1 ==> npublish == old(npublish) + 1 && pubmsg == publish.Message
 //@   ensures [ack-closure] err == nil && publish.Message.QOS == 1 ==> puback != 0
 //@   ensures [no-direct-ack] nsent[4] == old(nsent[4]) && nsent[7] == old(nsent[7]) && nqueued == old(nqueued)
+//@   ensures [no-connack] nsent[2] == old(nsent[2]) && nsentall <= old(nsentall) + 1
 //@   ensures [incoming] old(incoming_ok()) ==> incoming_ok()
 //@   modifies saved, nsent, nsentall, lastid, connack_sp, connack_code, nnodup, npubq, npublish, pubmsg, puback, ptok, nclose, tdying[c.tomb]
 //
@@ -245,6 +250,7 @@ package broker
 //@   ensures [unknown] err == nil && old(saved[0][id]) != 3 ==> nsent[7] == old(nsent[7]) + 1 && lastid[7] == id && npublish == old(npublish)
 //@   ensures [always-pubcomp] err == nil ==> nsent[7] == old(nsent[7]) + 1 || (npublish == old(npublish) + 1 && puback != 0)
 //@   ensures [kept] saved == old(saved)
+//@   ensures [no-connack] nsent[2] == old(nsent[2]) && nsentall <= old(nsentall) + 1
 //@   modifies nsent, nsentall, lastid, connack_sp, connack_code, nnodup, npubq, npublish, pubmsg, puback, nclose, tdying[c.tomb]
 //@   at call 1 Publish assert [pubcomp-id] pubcomp.ID == id && as(pkt, *packet.Publish) == publish
 
@@ -274,6 +280,8 @@ package broker
 //@   requires [first] nsent[2] == 0 && c.state == 0
 //@   requires [outgoing] outgoing_ok()
 //@   ensures [one-connack] nsent[2] <= 1
+//@   ensures [auth-called] nauth == old(nauth) + 1
+//@   ensures [setup-iff-auth] (authok ==> nsetup == old(nsetup) + 1) && (!authok ==> nsetup == old(nsetup))
 //@   ensures [rejected] !authok ==> err != nil && nsetup == old(nsetup) && c.will == old(c.will) && c.state == old(c.state) && c.session == old(c.session) && nsentall <= old(nsentall) + 1 && nsentall == old(nsentall) + nsent[2] && (nsent[2] == 1 ==> connack_code == 5) && npublish == old(npublish) && nsubscribe == old(nsubscribe) && nrestore == old(nrestore)
 //@   ensures [accepted] err == nil ==> authok && nsetup == old(nsetup) + 1 && connected(c) && c.state == 1 && nsent[2] == 1 && connack_code == 0
 //@   ensures [session-present] err == nil ==> (connack_sp <==> (!pkt.CleanSession && setup_resumed))
@@ -288,3 +296,92 @@ package broker
 //@   loop 4 invariant [tokens] dtok - old(dtok) <= rangeindex + 1
 //@   loop 4 invariant [stored] forall i int {packets[i]} :: 0 <= i && i < len(packets) ==> packets[i] != nil && typecode(packets[i]) != 0 && as(packets[i], *packet.Publish) != nil && saved[1][idOf(packets[i])] == typecode(packets[i]) && idOf(packets[i]) != 0
 //@   loop 4 invariant [state] authok && nsetup == old(nsetup) + 1 && connected(c) && c.state == 1 && outgoing_ok() && saved == old(saved) && (pkt.Will != nil ==> c.will == pkt.Will) && (pkt.Will == nil ==> c.will == old(c.will))
+
+// processPacket: server-only and repeated-CONNECT packets close the
+// connection without any reply or backend call (C20); a PINGREQ is answered.
+//@ func (c *Client) processPacket(pkt packet.Generic) (err error)
+//@   requires [client] connected(c)
+//@   requires [pkt] pkt != nil && typecode(pkt) != 0 && as(pkt, *packet.Publish) != nil
+//@   requires [publish] istype(pkt, *packet.Publish) ==> as(pkt, *packet.Publish).Message.QOS <= 2 && (as(pkt, *packet.Publish).Message.QOS > 0 ==> as(pkt, *packet.Publish).ID != 0)
+//@   requires [incoming] incoming_ok()
+//@   ensures [unexpected] typecode(pkt) == 1 || typecode(pkt) == 2 || typecode(pkt) == 9 || typecode(pkt) == 11 || typecode(pkt) == 13 ==> err != nil && nsentall == old(nsentall) && npublish == old(npublish) && nsubscribe == old(nsubscribe) && nunsubscribe == old(nunsubscribe) && saved == old(saved) && nqueued == old(nqueued)
+//@   ensures [pingresp] typecode(pkt) == 12 && err == nil ==> nsent[13] == old(nsent[13]) + 1 && nsentall == old(nsentall) + 1
+//@   ensures [one-reply] nsentall <= old(nsentall) + 1 && nsent[2] == old(nsent[2])
+//@   ensures [incoming-kept] incoming_ok()
+//@   ensures [disconnect] typecode(pkt) == 14 ==> err != nil && c.will == nil && c.state == 2
+//@   modifies c.will, c.state, saved, nsent, nsentall, lastid, connack_sp, connack_code, nnodup, npubq, npublish, pubmsg, puback, nsubscribe, nunsubscribe, ptok, stok, dtok, nclose, tdying[c.tomb]
+//
+// processSubscribe: the SUBACK released through the backend's ack carries the
+// request's id and one return code per requested filter, in request order.
+//@ func (c *Client) processSubscribe(pkt *packet.Subscribe) (err error)
+//@   requires [client] connected(c) && pkt != nil
+//@   ensures [handed] err == nil ==> nsubscribe == old(nsubscribe) + 1
+//@   ensures [no-direct-reply] nsentall == old(nsentall) && nqueued == old(nqueued)
+//@   modifies stok, nsubscribe, nclose, tdying[c.tomb]
+//@   loop 1 invariant [codes] suback != nil && suback.ID == pkt.ID && len(suback.ReturnCodes) == len(pkt.Subscriptions) && fresh(suback.ReturnCodes) && 0 <= rangeindex + 1 && rangeindex + 1 <= len(pkt.Subscriptions) && forall i int {suback.ReturnCodes[i]} :: 0 <= i && i <= rangeindex && i < len(pkt.Subscriptions) ==> suback.ReturnCodes[i] == pkt.Subscriptions[i].QOS
+//@   at call 1 Subscribe assert [suback] suback != nil && suback.ID == pkt.ID && len(suback.ReturnCodes) == len(pkt.Subscriptions) && forall i int {suback.ReturnCodes[i]} :: 0 <= i && i < len(pkt.Subscriptions) ==> suback.ReturnCodes[i] == pkt.Subscriptions[i].QOS
+//@ func (c *Client) processSubscribe$1()
+//@   requires [captured] *c != nil && *suback != nil
+//@ func (c *Client) processSubscribe$1$1()
+//@   requires [captured] *c != nil && *suback != nil
+//@   ensures [queued-suback] nqueued <= old(nqueued) + 1 && (nqueued == old(nqueued) + 1 ==> lastqueued == *suback)
+//@   modifies nqueued, lastqueued
+//
+//@ func (c *Client) processUnsubscribe(pkt *packet.Unsubscribe) (err error)
+//@   requires [client] connected(c) && pkt != nil
+//@   ensures [handed] err == nil ==> nunsubscribe == old(nunsubscribe) + 1
+//@   ensures [no-direct-reply] nsentall == old(nsentall) && nqueued == old(nqueued)
+//@   modifies stok, nunsubscribe, nclose, tdying[c.tomb]
+//@   at call 1 Unsubscribe assert [unsuback] unsuback != nil && unsuback.ID == pkt.ID
+//@ func (c *Client) processUnsubscribe$1()
+//@   requires [captured] *c != nil && *unsuback != nil
+//@ func (c *Client) processUnsubscribe$1$1()
+//@   requires [captured] *c != nil && *unsuback != nil
+//@   ensures [queued-unsuback] nqueued <= old(nqueued) + 1 && (nqueued == old(nqueued) + 1 ==> lastqueued == *unsuback)
+//@   modifies nqueued, lastqueued
+//
+//@ func (c *Client) processPublish$1()
+//@   requires [captured] *c != nil && client_ok(*c) && *puback != nil && *publish != nil
+//@ func (c *Client) processPublish$1$1()
+//@   requires [captured] *c != nil && client_ok(*c) && *puback != nil && *publish != nil
+//@   ensures [queued-puback] nqueued <= old(nqueued) + 1 && (nqueued == old(nqueued) + 1 ==> lastqueued == *puback)
+//@   modifies nqueued, lastqueued
+//@ func (c *Client) processPubrel$1()
+//@   requires [captured] *c != nil && client_ok(*c) && *pubcomp != nil && *publish != nil
+//@ func (c *Client) processPubrel$1$1()
+//@   requires [captured] *c != nil && client_ok(*c) && *pubcomp != nil && *publish != nil
+//@   ensures [queued-pubcomp] nqueued <= old(nqueued) + 1 && (nqueued == old(nqueued) + 1 ==> lastqueued == *pubcomp)
+//@   modifies nqueued, lastqueued
+//
+// cleanup: the will is handed to the backend exactly when the client was
+// accepted and did not disconnect cleanly, and it is the stored will; the
+// backend is told about the termination once iff Setup may have run.
+//@ func (c *Client) cleanup()
+//@   requires [client] client_ok(c)
+//@   ensures [will] npublish == old(npublish) + (old(c.state) == 1 && old(c.will) != nil ? 1 : 0)
+//@   ensures [will-msg] old(c.state) == 1 && old(c.will) != nil ==> pubmsg == old(c.will) && puback == 0
+//@   ensures [terminate] nterminate == old(nterminate) + (old(c.state) >= 1 ? 1 : 0)
+//@   ensures [kept] c.will == old(c.will) && c.state == old(c.state)
+//@   modifies npublish, pubmsg, puback, nterminate
+//
+// processor: nothing is sent and no backend service is used before a CONNECT
+// was received as the first packet; nothing but the CONNACK unless it was
+// accepted.
+//@ func (c *Client) processor() (err error)
+//@   requires [client] client_ok(c)
+//@   requires [first] nsent[2] == 0 && c.state == 0
+//@   requires [session] outgoing_ok() && incoming_ok()
+//@   ensures [err] err != nil
+//@   ensures [connect-first] nauth == old(nauth) ==> nsentall == old(nsentall) && nsetup == old(nsetup) && npublish == old(npublish) && nsubscribe == old(nsubscribe) && nunsubscribe == old(nunsubscribe) && saved == old(saved) && c.will == old(c.will) && c.state == old(c.state)
+//@   ensures [accept-first] nsetup == old(nsetup) ==> npublish == old(npublish) && nsubscribe == old(nsubscribe) && nunsubscribe == old(nunsubscribe) && saved == old(saved) && c.will == old(c.will) && nsentall <= old(nsentall) + 1
+//@   ensures [one-connack] nsent[2] <= 1
+//@   modifies c.id, c.state, c.session, c.will, c.MaximumKeepAlive, c.ParallelPublishes, c.ParallelSubscribes, c.InflightMessages, c.TokenTimeout, c.PacketCallback, c.Ref, c.publishTokens, c.subscribeTokens, c.dequeueTokens, c.ackQueue, any(packet.Publish.Dup), nauth, authok, nsetup, setup_resumed, nrestore, nall, saved, nsent, nsentall, lastid, connack_sp, connack_code, nnodup, npubq, npublish, pubmsg, puback, nsubscribe, nunsubscribe, dtok, ptok, stok, nclose, tdying[c.tomb], tstarted[c.tomb]
+//@   loop 1 invariant [serving] connected(c) && incoming_ok() && nauth == old(nauth) + 1 && nsetup == old(nsetup) + 1 && nsent[2] == 1
+//
+//@ func NewClient(backend Backend, conn transport.Conn) (c *Client)
+//@   requires [args] backend != nil && conn != nil
+//@   ensures [client] c != nil && fresh(c) && client_ok(c) && c.state == 0 && c.will == nil
+//@   modifies tstarted
+//@ func NewClient$1()
+//@   requires [captured] *c != nil && client_ok(*c) && tstarted[(*c).tomb] > 0 && (*c).closed != nil
+//@   modifies npublish, pubmsg, puback, nterminate
